@@ -115,7 +115,7 @@ def directed():
 HISTORIES = [
     ['train', 'apply', 'serve~race', 'perftrack', 'train', 'apply~race', 'apply@1', 'perftrack'],
     ['train', 'train~window', 'serve', 'apply@1', 'perftrack@1', 'train', 'apply', 'serve'],
-    ['train', 'perftrack', 'apply', 'train', 'perftrack', 'serve', 'apply@1'],
+    ['train', 'perftrack', 'apply', 'train', 'train@1', 'apply', 'serve', 'apply@2'],
 ]
 
 
@@ -161,8 +161,8 @@ def run_history(ctx, label, expr, history, schedule, index):
             if kind != 'train' and not model:
                 continue
             target = generation or (max(model) if model else None)
-            if kind != 'train' and target not in model:
-                continue
+            if target not in model and (kind != 'train' or explicit):
+                continue  # (re-training from an explicit generation needs that generation)
             nonce = f'{kind[0]}{index}x{step}'
             job = {'registry': registry, 'project': 'p', 'release': '1', 'generation': generation, 'action': kind,
                    'nonce': nonce, 'out': os.path.join(workdir, f'{step}.json'), 'gc': schedule,
@@ -218,7 +218,11 @@ def run_history(ctx, label, expr, history, schedule, index):
                 last = max(model) if model else 0
                 prev = {}
                 if last:
-                    for f in model[last]:
+                    # incremental training resumes from the generation the action refers to (the latest unless an older one is
+                    # named explicitly) and commits on top of the release
+                    if explicit:
+                        ctx.count('retrain_from_older_generation_checked')
+                    for f in model[generation or last]:
                         if f.op == 'fit' and f.args[0] in persistent:
                             prev.setdefault(f.args[0], []).append(f)
                     ctx.count('retrain_checked')
@@ -236,6 +240,8 @@ def run_history(ctx, label, expr, history, schedule, index):
                     miss = [t.show(4) for t in (want - got)][:2]
                     extra = [t.show(4) if t else None for t in (got - want)][:2]
                     key = 'retrain-previous-state-binding' if last else 'train-persisted-states'
+                    if explicit:
+                        key = 'retrain-from-older-generation-state-binding'
                     if collections.Counter(symbolic.unstamp(t) for t in want) == collections.Counter(
                             symbolic.unstamp(t) for t in got if t is not None):
                         key = 'train-stale-hyper-parameters'
